@@ -14,7 +14,11 @@ S: the "scale" family - production-size calls (257 .. 7*10^4 knees on curves of 
    knees only; nothing is indexed by the points of the curve).  The IoU classes come from the exact-rational oracle above,
    independent of the library's rect / rect_overlap; a "dense" class (4*10^3 .. 1.1*10^5 points sampled so finely that the
    coordinate steps are 10^-5 .. 10^-9 of the coordinates, 800 .. 5*10^4 knees, t = 0.33 / quantiles / knife-edge thresholds
-   placed inside the tightest gap between two observed IoU values) makes reduced-precision geometry visible."""
+   placed inside the tightest gap between two observed IoU values) makes reduced-precision geometry visible.
+I: the "translated int64" family - int64 curves whose x and / or y coordinates sit 2^53 .. 2^62 away from the origin (built from
+   Python ints: nanosecond timestamps, walks, staircases, tied heights; steps of 1 .. 10^3, so that neighbouring coordinates
+   share one float64): small curves (3 .. 40 points) judged by Trace_Filters next to T with exact integer height ranks and the
+   exact Python-int IoU, and production-size ones (257 .. 7*10^4 knees) judged by Trace_FiltersScale inside S."""
 import random
 
 import numpy as np
@@ -193,6 +197,141 @@ def _inputs(ctx):
     return items
 
 
+# --------------------------------------------------------------------------- I (int64 curves translated far from the origin)
+# The combination "integer dtype AND a large translation": int64 holds coordinates of 2^53 .. 2^63 exactly, float64 does not
+# (spacing 2 .. 1024), so any geometry that leaves the integers before taking differences loses the small extents.  Curves are
+# built from Python ints (no float on the way), the oracle is the exact rational _xiou on those ints, the height ranks are exact.
+I_SHAPES = ("timestamps", "walk", "heights", "stairs", "fine")
+I_MODES = ("x", "xy", "y", "x", "xy")
+T0_NS = 1700000000000000000            # nanoseconds since the epoch: 2^60.56
+
+
+def _i_offset(r):
+    """A translation of magnitude 2^53 .. 1.5 * 2^62, mostly positive."""
+    e = r.randint(53, 62)
+    off = r.randrange(1 << e, (1 << (e + 1)) if e < 62 else (1 << 62) + (1 << 61))
+    if r.random() < 0.25:
+        off = T0_NS + r.randrange(10 ** 15)
+    return -off if r.random() < 0.2 else off
+
+
+def _i_curve(r, shape, mode, n):
+    """n points [x, y] of Python ints, x strictly increasing, every |coordinate| < 2^63 - 2^20."""
+    xs, ys, x, y = [], [], 0, 0
+    for _ in range(n):
+        xs.append(x)
+        ys.append(y)
+        if shape == "timestamps":       # irregular sampling intervals of 20 .. 800 ns, non-increasing counts
+            x, y = x + r.randint(20, 800), y - r.choice((0, r.randint(1, 5000), r.randint(1, 50)))
+        elif shape == "walk":           # non-monotone walk with ties
+            x, y = x + r.randint(1, 4), y + r.randint(-3, 3)
+        elif shape == "heights":        # unit abscissae, heights that differ by 0 / 1 / 2: ties and near ties of the height filter
+            x, y = x + 1, y + r.choice((-2, -1, -1, 0, 0, 1, 1))
+        elif shape == "stairs":         # plateaus and sharp drops, uneven widths
+            x, y = x + r.choice((1, 2, 7, 90, 400, 1000)), y - r.choice((0, 0, 1, 10, 1000))
+        else:                           # "fine": steps of 1 .. 3 in both coordinates, decreasing
+            x, y = x + r.randint(1, 3), y - r.randint(0, 3)
+    ox = _i_offset(r) if "x" in mode else r.choice((0, 0, 1000))
+    oy = _i_offset(r) if "y" in mode else r.choice((0, 1000, 900000)) - min(ys)
+    return [[ox + a, oy + b] for a, b in zip(xs, ys)]
+
+
+def _iranks(v):
+    """Exact dense ranks (0 = smallest) of Python ints."""
+    u = {h: j for j, h in enumerate(sorted(set(v)))}
+    return [u[h] for h in v]
+
+
+def _i_array(pts):
+    P = np.array(pts, dtype=np.int64)
+    if P.dtype != np.int64 or P.tolist() != [list(q) for q in pts]:
+        raise ValueError("the int64 array does not hold the curve exactly")
+    return P
+
+
+def _i_record(item):
+    """As _record, on an int64 array: exact integer height ranks, IoU classes from the exact oracle on the Python ints."""
+    import kneeliverse.postprocessing as pp
+    cid, pts, knees, t = item
+    tq = float(t).as_integer_ratio()
+    P = _i_array(pts)
+    n = len(P)
+    c = {"id": cid, "kind": "c13", "n": n, "knees": list(knees), "raised": "", "hr": _iranks([q[1] for q in pts]),
+         "cls": ["-" if not (k - 1 >= 0 and k + 1 < n) else ("below", "atleast")[_xclass(P, k, _xiou(P, k), t, tq) - 1]
+                 for k in knees],
+         "worst": [], "worst2": [], "filt": [], "filt2": [], "sel": [], "sel2": []}
+    for key, fn, a in (("worst", pp.filter_worst_knees, ()), ("filt", pp.filter_corner_knees, (t,)),
+                       ("sel", pp.select_corner_knees, (t,))):
+        try:
+            c[key], c[key + "2"] = _twice(fn, P, knees, *a)
+        except Exception as ex:
+            c["raised"] = "%s: %s" % (fn.__name__, type(ex).__name__)
+            break
+    return c
+
+
+def _i_inputs(ctx):
+    """Small translated int64 curves x knee lists x thresholds (0.33 + specials + harvested ties), as _inputs does for T.  An
+    rng of its own: the streams of the older families stay what they were."""
+    r = random.Random(ctx.seed * 7919 + 1317)
+    items, stats = [], {"curves": 0, "by_shape": {}, "by_mode": {}, "negative_offsets": 0, "decisions": 0, "near": 0}
+    for ci in range(160 if ctx.quick else 1600):
+        shape, mode = I_SHAPES[ci % len(I_SHAPES)], I_MODES[(ci // len(I_SHAPES)) % len(I_MODES)]
+        if shape == "heights":
+            mode = ("y", "xy")[ci % 2]
+        n = r.randint(3, 40) if ci % 8 else r.randint(3, 6)
+        pts = _i_curve(r, shape, mode, n)
+        P = _i_array(pts)
+        stats["curves"] += 1
+        stats["by_shape"][shape] = stats["by_shape"].get(shape, 0) + 1
+        stats["by_mode"][mode] = stats["by_mode"].get(mode, 0) + 1
+        stats["negative_offsets"] += pts[0][0] < -(1 << 52) or pts[0][1] < -(1 << 52)
+        for ki in range(2):
+            knees = sorted(r.sample(range(n), r.randint(0, min(n, 12))))
+            if ki == 1:
+                knees = list(range(n)) if ci % 3 == 0 else sorted(set(knees) | {0, n - 1})
+            obs = [_iou(P, k) for k in knees if 0 < k < n - 1]
+            ts = [0.33, 0.0, 1.0, 0.5, 0.1, 0.25] + sorted(set(obs))
+            pick = [0.33] + r.sample(ts[1:], min(len(ts) - 1, 3))
+            for ti, t in enumerate(pick):
+                tq = float(t).as_integer_ratio()
+                side = [_xside(_xiou(P, k), tq) for k in knees if 0 < k < n - 1]
+                stats["decisions"] += sum(1 for sd in side if sd)
+                stats["near"] += sum(1 for sd in side if sd == 0)
+                items.append(("i%d-%d-%d" % (ci, ki, ti), pts, knees, float(t)))
+    return items, stats
+
+
+# production-size translated int64 calls, appended to the plan of S: (knee-count threshold straddled, combos, thresholds)
+I_SCALE_QUICK = ((256, 2, 2), (1024, 2, 2), (4096, 1, 1), (10000, 1, 1))
+I_SCALE_THOROUGH = ((256, 4, 3), (1024, 4, 2), (4096, 3, 2), (10000, 2, 2), (16384, 2, 1), (32768, 1, 1), (65536, 1, 1))
+I_SCALE_SHAPES = ("ns-counts", "walk", "staircase", "droughts", "ns-counts", "convex")
+
+
+def _i_plan(ctx, first):
+    import types
+    r = random.Random(ctx.seed * 104729 + 4242)
+    ns = scale.sizes(types.SimpleNamespace(rng=r, quick=ctx.quick), lo=257, hi=110000, k_quick=8, k_thorough=16)
+    out = []
+    o1, o2, o3 = r.randrange(len(I_SCALE_SHAPES)), r.randrange(len(S_LAYOUTS)), r.randrange(len(S_TSPECS))
+    for thr, cnt, nts in (I_SCALE_QUICK if ctx.quick else I_SCALE_THOROUGH):
+        for j in range(cnt):
+            k = len(out)
+            m = thr + 1 + r.randrange(0, max(2, thr // (16 if j % 2 == 0 else 2)))
+            layout = S_LAYOUTS[(k + o2) % len(S_LAYOUTS)]
+            if layout == "all" and m > 20000:
+                layout = "random+ends"
+            fit = [n for n in ns if n >= m + 2]
+            n = m if layout == "all" else r.choice(fit or [m + 2 + r.randrange(0, 5000)])
+            mode = I_MODES[(k + o1) % len(I_MODES)]
+            off = [_i_offset(r) if "x" in mode else 0, _i_offset(r) if "y" in mode else 0]
+            ts = [0.33] + [S_TSPECS[(o3 + 3 * k + q) % len(S_TSPECS)] for q in range(nts - 1)]
+            out.append({"id": "s%d" % (first + k), "shape": I_SCALE_SHAPES[(k + o1) % len(I_SCALE_SHAPES)], "n": n,
+                        "cs": r.randrange(1 << 30), "layout": layout, "m": m, "ks": r.randrange(1 << 30), "variant": "int64",
+                        "off": off, "ts": ts})
+    return out
+
+
 STATIC = {"kind": "c13", "n": 5, "knees": [0, 1, 2, 3, 4], "raised": "", "hr": [3, 1, 2, 1, 0],
           "cls": ["-", "below", "atleast", "atleast", "-"],
           "worst": [0, 1, 3, 4], "worst2": [0, 1, 3, 4], "filt": [0, 1, 4], "filt2": [0, 1, 4],
@@ -297,7 +436,25 @@ def _s_curve(shape, n, cs):
         x = 86400.0 + np.cumsum(g.uniform(2e-4, 2e-3, n))
         y = 1000.0 + np.cumsum(g.normal(-0.2, 1.0, n)) * 1e-5
         return np.ascontiguousarray(np.column_stack([x, y - min(0.0, y.min())]))
+    if shape == "ns-counts":          # integral: sampling intervals of 20 .. 800 (nanoseconds), non-increasing counts with plateaus
+        x = np.cumsum(g.integers(20, 801, n)).astype(float)
+        y = np.cumsum((g.integers(0, 5000, n) * (g.random(n) < 0.7))[::-1])[::-1].astype(float)
+        return np.ascontiguousarray(np.column_stack([x, y]))
     raise ValueError(shape)
+
+
+def _s_points(rc):
+    """The array that is passed to the library: float64, or int64 (optionally translated by Python-int offsets)."""
+    P = _s_curve(rc["shape"], rc["n"], rc["cs"])
+    if rc["variant"] == "int64":
+        P = np.ascontiguousarray(P.astype(np.int64))
+        if rc.get("off"):
+            if int(np.abs(P).max()) >= 1 << 60:
+                raise ValueError("base curve too large to translate")
+            P = np.ascontiguousarray(P + np.array([int(v) for v in rc["off"]], dtype=np.int64))
+            if P.dtype != np.int64 or not bool(np.all(np.diff(P[:, 0]) > 0)):
+                raise ValueError("translated int64 curve is not valid")
+    return P
 
 
 def _s_knees(layout, P, m, ks):
@@ -344,8 +501,7 @@ def _s_record(rc):
     import kneeliverse.postprocessing as pp
     P = _s_curve(rc["shape"], rc["n"], rc["cs"])
     knees = _s_knees(rc["layout"], P, rc["m"], rc["ks"])
-    if rc["variant"] == "int64":
-        P = np.ascontiguousarray(P.astype(np.int64))
+    P = _s_points(rc)
     n, m = len(P), len(knees)
     iou = [(_iou(P, k) if 0 < k < n - 1 else None) for k in knees]      # the library's primitive: tie harvesting and NEAR knees only
     xi = [(_xiou(P, k) if 0 < k < n - 1 else None) for k in knees]      # the exact oracle
@@ -364,7 +520,8 @@ def _s_record(rc):
         else:
             ts.append(float(spec))
     c = {"id": rc["id"], "kind": "c13s", "n": n, "knees": knees, "raised": "", "worst": [], "worst2": [], "ts": [],
-         "kh": numeric.ranks(np.asarray(P[knees, 1], float), rel=0.0, ab=0.0)}
+         "kh": (_iranks(P[knees, 1].tolist()) if rc.get("off") else            # translated int64: exact integer ranks
+                numeric.ranks(np.asarray(P[knees, 1], float), rel=0.0, ab=0.0))}
     st = {"n": n, "m": m, "nt": [], "ties": 0, "zero": sum(1 for v in iou if v == 0.0), "kept": 0, "exact": 0, "near": 0,
           "margin": None}
     try:                              # a call that does not complete is a verdict of its own part only
@@ -494,6 +651,8 @@ def _s_pack(cases, nself, limit=1200000, maxruns=8):
 
 def _s_detail(v, rc):
     d = {"n": rc["n"], "knees": rc["m"], "shape": rc["shape"], "layout": rc["layout"], "variant": rc["variant"], "verdict": v}
+    if rc.get("off"):
+        d["translated_by"] = list(rc["off"])
     body = v[1:]
     if v[0] not in S_WORST and not (v[0] == "completes" and len(v) == 2):
         d["t"], body = body[0], body[1:]
@@ -503,14 +662,14 @@ def _s_detail(v, rc):
                   "first_difference": {"position": body[2], a: body[3], b: body[4]}})
         ks = [int(x) for x in body[3:5] if int(x) >= 0]
         if v[0].startswith("corner-split") and ks and 0 < min(ks) < rc["n"] - 1:       # the knee on the wrong side of t
-            P = _s_curve(rc["shape"], rc["n"], rc["cs"])
-            num, den = _xiou(P.astype(np.int64) if rc["variant"] == "int64" else P, min(ks))
+            num, den = _xiou(_s_points(rc), min(ks))
             d["first_difference"].update({"knee": min(ks), "iou_exact": num / den, "iou_minus_t": num / den - float(d["t"])})
     return d
 
 
 def _scale(ctx, seen):
     plan = _s_plan(ctx)
+    plan += _i_plan(ctx, len(plan))                                    # translated int64 calls (family I at production size)
     plan.sort(key=lambda rc: -rc["m"] * (0.2 + len(rc["ts"])))                 # longest first: the pool stays busy
     res = par.pmap(_s_record, plan, chunksize=1)
     recipes = {}
@@ -541,6 +700,12 @@ def _scale(ctx, seen):
         "knees_dropped_by_height_filter": sum(st["m"] - st["kept"] for _, _, st in res),
         "did_not_complete": sum(bool(c["raised"]) + sum(1 for r in c["ts"] if r["raised"]) for c in cases),
         "largest_tlc_input_bytes": biggest, "tlc_runs": -(-(len(cases) + len(stc)) // chunk)}
+    tr = [(rc, st) for rc, (_, _, st) in zip(plan, res) if rc.get("off")]
+    ctx.extra["int64_translated"]["scale"] = {
+        "calls_recorded": len(tr), "knees_per_call": sorted(st["m"] for _, st in tr), "points_per_curve": sorted(st["n"] for _, st in tr),
+        "shapes": sorted(set(rc["shape"] for rc, _ in tr)), "layouts": sorted(set(rc["layout"] for rc, _ in tr)),
+        "offset_bits": sorted(set(abs(int(v)).bit_length() for rc, _ in tr for v in rc["off"] if v)),
+        "exact_decisions": sum(st["exact"] for _, st in tr), "near": sum(st["near"] for _, st in tr)}
     big = max(zip(plan, res), key=lambda z: z[1][2]["m"])
     ctx.sample({"binding": "S", "recipe": recipes[big[0]["id"]], "n": big[1][2]["n"], "knees": big[1][2]["m"],
                 "kept_by_height_filter": big[1][2]["kept"], "zero_overlap_knees": big[1][2]["zero"],
@@ -569,7 +734,12 @@ def run(ctx):
                 "rect / rect_overlap), and S includes a dense class - finely sampled curves of 4*10^3 .. 1.1*10^5 points (random "
                 "strictly decreasing steps, a smooth decay at uneven abscissae, small steps on large offsets) with n/10 .. n/2 knees "
                 "(every k-th point / random / contiguous), t = 0.33, quantile ties and knife-edge thresholds inside the tightest "
-                ">= 4e-9 gap between two observed IoU values")
+                ">= 4e-9 gap between two observed IoU values.  I (translated int64): int64 curves built from Python ints whose x and / or "
+                "y coordinates are 2^53 .. 1.5*2^62 (either sign) away from the origin with steps of 1 .. 10^3 (nanosecond timestamps with "
+                "non-increasing counts, walks, heights differing by 0 / 1 / 2, staircases, fine descents) - 3 .. 40 points with random / "
+                "with-both-ends / every-point knee lists, t = 0.33 + {0, 1, 1/2, 1/10, 1/4, harvested ties}, judged by Trace_Filters with "
+                "exact integer height ranks and the exact Python-int IoU, and production-size calls of the same kind (257 .. 1.5*10^4 "
+                "knees, thorough .. 7*10^4) judged by Trace_FiltersScale inside S")
     ctx.assumptions += [
         "G domain: small integer coordinates; t = float(p/q) - one correctly rounded division decides like the rational",
         "T: heights are compared exactly (dense ranks without noise merging); the IoU of rect((x0,y2),p1) and rect(p0,p2) (0 when "
@@ -577,6 +747,9 @@ def run(ctx):
         "|IoU - t| <= 1e-12 * max(IoU, t) the class is the bit-exact comparison of knee_ranking.rect_overlap(...) with t (a tie "
         "within rounding noise pins nothing beyond the library's own primitive, which is C17's business)",
         "knee lists are ascending and duplicate-free; the empty list is included",
+        "I: same policy as T on int64 data - heights are compared as integers, the IoU is the exact rational of the integer "
+        "coordinates (every extent and product of the curves used stays far below 2^53, so the int64 / double evaluation is exact "
+        "up to the final division); decisions within the NEAR band (1e-12 relative) are classed by the library's own primitive",
         "S: same policy as T at production size - exact height ranks of the knees, exact-rational IoU classes (NEAR knees: the "
         "library's own primitives on the array that is passed to the call); double-precision evaluation of the IoU is accurate to "
         "~1e-15 relative (differences of neighbouring coordinates, two products, a + b - overlap >= max(a, b)), the knife-edge "
@@ -608,17 +781,33 @@ def run(ctx):
     items = _inputs(ctx)
     cases = par.pmap(_record, items)
     meta = {it[0]: it for it in items}
-    rej = ctx.trace("Trace_Filters", cases, selftest=_selftests(), chunk=1500)
+    iitems, istats = _i_inputs(ctx)                                    # family I (small): judged by the same validator, same batch
+    icases = par.pmap(_i_record, iitems)
+    imeta = {it[0]: it for it in iitems}
+    rej = ctx.trace("Trace_Filters", cases + icases, selftest=_selftests(), chunk=1500)
+    for c in icases:
+        nt = len(c["knees"]) >= 2 and (len(c["worst"]) < len(c["knees"]) or any(x != "-" for x in c["cls"]))
+        ctx.count(("I", imeta[c["id"]][1:]), nt)
     for c in cases:
         nt = len(c["knees"]) >= 2 and (len(c["worst"]) < len(c["knees"]) or any(x != "-" for x in c["cls"]))
         ctx.count(("T", meta[c["id"]][1:]), nt)
     for cid, vs in rej.items():
-        _, pts, knees, t = meta[cid]
+        _, pts, knees, t = imeta[cid] if cid in imeta else meta[cid]
         for v in vs:
-            _report(ctx, seen, v[0], {"kind": "T", "points": pts, "knees": knees, "t": t}, {"verdict": v})
+            if cid in imeta:
+                _report(ctx, seen, v[0], {"kind": "I", "points": pts, "knees": knees, "t": t},
+                        {"verdict": v, "dtype": "int64", "first_point": pts[0]})
+            else:
+                _report(ctx, seen, v[0], {"kind": "T", "points": pts, "knees": knees, "t": t}, {"verdict": v})
     big = max(cases, key=lambda c: (len(set(c["cls"])), len(c["knees"]) - len(c["worst"])) if c["n"] <= 12 else (0, 0))
     ctx.sample({"binding": "T", "call": {"points": meta[big["id"]][1], "knees": big["knees"], "t": meta[big["id"]][3]},
                 "case": big})
+    ibig = max(icases, key=lambda c: (len(set(c["cls"])), len(c["knees"]) - len(c["worst"])) if c["n"] <= 8 else (0, 0))
+    ctx.sample({"binding": "I", "call": {"points_int64": imeta[ibig["id"]][1], "knees": ibig["knees"], "t": imeta[ibig["id"]][3]},
+                "case": ibig}, limit=5)
+    ctx.extra["int64_translated"] = dict(istats, calls_recorded=len(icases), did_not_complete=sum(bool(c["raised"]) for c in icases),
+                                         knees_dropped_by_height_filter=sum(len(c["knees"]) - len(c["worst"]) for c in icases
+                                                                            if not c["raised"]))
     # ---- S
     _scale(ctx, seen)
     ctx.extra["violating_cases_by_clause"] = dict(seen)
@@ -633,6 +822,11 @@ def replay(ctx, obj):
         rc = dict(case["recipe"], id="replay")
         c, ts, _ = _s_record(rc)
         _s_verdicts(ctx, ctx.trace("Trace_FiltersScale", [c]), {"replay": dict(rc, ts=ts)}, {})
+    elif case["kind"] == "I":
+        c = _i_record(("replay", [[int(a), int(b)] for a, b in case["points"]], case["knees"], case["t"]))
+        for cid, vs in ctx.trace("Trace_Filters", [c]).items():
+            for v in vs:
+                ctx.violation(v[0], case, {"verdict": v, "dtype": "int64"})
     else:
         c = _record(("replay", case["points"], case["knees"], case["t"]))
         rej = ctx.trace("Trace_Filters", [c])
